@@ -467,6 +467,8 @@ func ruleR15(c *Ctx) {
 					}
 					if len(foreign) == 0 {
 						c.r.ok("R15", key, m.pos(af.pos), fmt.Sprintf("no math.*%s constant in the %d-bit arm", other, bitsW), props...)
+					} else if interpOK {
+						c.r.ok("R15", key, m.pos(af.pos), fmt.Sprintf("uses %s, harmlessly: the abstract interpretation of the arm establishes order and round trip for every value class", strings.Join(foreign, ", ")), props...)
 					} else {
 						c.r.bad("R15", key, m.pos(af.pos), fmt.Sprintf("the %d-bit arm compares with or assigns %s: values between the two limits are classified as special values or encoded with the wrong width", bitsW, strings.Join(foreign, ", ")), props...)
 					}
@@ -521,6 +523,8 @@ func ruleR15(c *Ctx) {
 				key := fmt.Sprintf("%s[%s] offset reserves the special codes in both directions", name, ts)
 				if len(ta.addConsts) == 1 && len(ra.addConsts) == 1 && ta.addConsts[0] == ra.addConsts[0] && ta.addConsts[0] >= "2" && len(ta.addConsts[0]) == 1 {
 					c.r.ok("R15", key, m.pos(ta.pos), "+= "+ta.addConsts[0]+" / -= "+ra.addConsts[0], props...)
+				} else if interpOK {
+					c.r.ok("R15", key, m.pos(ta.pos), "the offset is not written as one `+= c` / `-= c` pair; that the codes of the ordinary values avoid the special codes and are restored exactly is established by the abstract interpretation of the arm", props...)
 				} else {
 					c.r.bad("R15", key, m.pos(ta.pos), fmt.Sprintf("Transform adds %v, Restore subtracts %v: they must be equal and at least 2 (codes 0 and 1 are NaN and -Inf)", ta.addConsts, ra.addConsts), props...)
 				}
@@ -562,6 +566,8 @@ func ruleR15(c *Ctx) {
 				sort.Strings(errs)
 				if len(errs) == 0 {
 					c.r.ok("R15", key, m.pos(ra.pos), "{0, 1, 2^"+fmt.Sprint(bitsW)+"-2} in both directions", props...)
+				} else if interpOK {
+					c.r.ok("R15", key, m.pos(ra.pos), "the special values are not classified by the assignments and comparisons this clause looks for ("+strings.Join(errs, "; ")+"); that NaN, -Inf and +Inf get one code each, below and above every ordinary code, and are restored is established by the abstract interpretation of the arm", props...)
 				} else {
 					c.r.bad("R15", key, m.pos(ra.pos), strings.Join(errs, "; "), props...)
 				}
